@@ -67,7 +67,7 @@ def cases(rng, tier):
     # lopsided compositions in every regime of the delta-max search (inversion maps them to the mirror composition)
     for k in (5, 6, 8, 11, 12, 14, 19):
         for m in (1, 2):
-            for n0 in (0, 5, 17, 18, 19, 25):
+            for n0 in (0, 5, 7, 9, 12, 15, 17, 18, 19, 25):
                 s = gen.spell(gen.arrange((k, m, n0), rng), rng)
                 lines, idx = block(s, rng)
                 yield Case(lines, {"kind": "lopsided", "idx": idx})
